@@ -13,12 +13,13 @@ RenderLabels(c, which, outcome, r) ==
   (IF outcome = "panicked" THEN {which \o "-crash"} ELSE {})
   \cup (IF outcome = "error" THEN {which \o "-error"} ELSE {})
   \* structural fidelity is judged for names that are plain identifiers
-  \cup (IF outcome = "returned" /\ c.plainNames /\ r.unparsed # <<>> THEN {which \o "-malformed-statement"} ELSE {})
-  \cup (IF outcome = "returned" /\ c.plainNames /\ r.unparsed = <<>> /\ ~RenderFaithful(c.g, r)
+  \cup (IF outcome = "returned" /\ r.unparsed # <<>> THEN {which \o "-malformed-statement"} ELSE {})
+  \cup (IF outcome = "returned" /\ r.unparsed = <<>> /\ ~RenderFaithful(c.g, r)
         THEN {which \o "-not-faithful"} ELSE {})
 
 Labels(c) ==
   (IF c.analysisOutcome # "returned" THEN {"analysis-crash"} ELSE {})
+  \cup (IF \E i \in DOMAIN c.rawOutcomes : c.rawOutcomes[i] = "panicked" THEN {"tool-crashes-on-the-uncompiled-spec"} ELSE {})
   \cup (IF c.analysisOutcome = "returned" /\ ~AnalysisFaithful(c.g, c.analysis) THEN {"analysis-not-faithful"} ELSE {})
   \cup RenderLabels(c, "dot", c.dotOutcome, c.dot)
   \cup RenderLabels(c, "mermaid", c.mermaidOutcome, c.mermaid)
@@ -35,7 +36,7 @@ Next ==
                   withBranches |-> stats.withBranches + (IF NBranches(c.g) > 0 THEN 1 ELSE 0),
                   withMissing |-> stats.withMissing + (IF MissingTargets(c.g) # {} THEN 1 ELSE 0),
                   withNative |-> stats.withNative + (IF \E n \in Nodes(c.g) : c.g[n].action = "native" THEN 1 ELSE 0),
-                  structural |-> stats.structural + (IF c.plainNames THEN 1 ELSE 0)]
+                  structural |-> stats.structural + 1]
 Spec == Init /\ [][Next]_vars
 Done == (l = Len(Trace) + 1) =>
           /\ ndJsonSerialize("judge_bad.ndjson", bad)
